@@ -67,8 +67,12 @@ var c03Alphabet = func() []buildOp {
 		ops = append(ops, buildOp{Name: fmt.Sprintf("Username(%dB)", n), Do: func(m *stun.Message) { _ = stun.Username(v).AddTo(m) }})
 	}
 	ops = append(ops,
-		buildOp{Name: "XORMappedAddress(v4)", Do: func(m *stun.Message) { _ = (&stun.XORMappedAddress{IP: net.IPv4(10, 1, 2, 3).To4(), Port: 4000}).AddTo(m) }},
-		buildOp{Name: "XORMappedAddress(v6)", Do: func(m *stun.Message) { _ = (&stun.XORMappedAddress{IP: net.ParseIP("2001:db8::1"), Port: 4001}).AddTo(m) }},
+		buildOp{Name: "XORMappedAddress(v4)", Do: func(m *stun.Message) {
+			_ = (&stun.XORMappedAddress{IP: net.IPv4(10, 1, 2, 3).To4(), Port: 4000}).AddTo(m)
+		}},
+		buildOp{Name: "XORMappedAddress(v6)", Do: func(m *stun.Message) {
+			_ = (&stun.XORMappedAddress{IP: net.ParseIP("2001:db8::1"), Port: 4001}).AddTo(m)
+		}},
 		buildOp{Name: "MappedAddress(v4)", Do: func(m *stun.Message) { _ = (&stun.MappedAddress{IP: net.IPv4(10, 1, 2, 4).To4(), Port: 4002}).AddTo(m) }},
 		buildOp{Name: "ErrorCode(400)", Do: func(m *stun.Message) { _ = stun.CodeBadRequest.AddTo(m) }},
 		buildOp{Name: "UnknownAttributes(0)", Do: func(m *stun.Message) { _ = stun.UnknownAttributes{}.AddTo(m) }},
